@@ -6,7 +6,9 @@ package comet
 
 import (
 	"bufio"
+	"bytes"
 	"fmt"
+	"io"
 	"os"
 	"os/exec"
 	"path/filepath"
@@ -336,6 +338,15 @@ func vfC17Run(c vfC17Case, ctx *vfCtx) *vfViolation {
 				return vfFail("op %d: %s on a closed handle touched the directory:\n%s", i, op.Method, vfFirstDiff(before, after))
 			}
 			ctx.Class("use_after_close=" + op.Method)
+			if op.Method == "train" {
+				// "fails cleanly" for Train also means: the refused call has not touched the (shared,
+				// caller-visible) template either. A flat template has nothing to train, so this is
+				// looked at on a store of its own with an IVF template.
+				if v := vfC17RefusedTrainLeavesTemplate(i); v != nil {
+					return v
+				}
+				ctx.Class("refused_train_leaves_the_template_alone")
+			}
 		case "add_flush":
 			st := slots[op.Slot]
 			if st == nil || !isOpen[op.Slot] {
@@ -687,3 +698,59 @@ func TestVerif_C17Child(t *testing.T) {
 }
 
 func TestVerif_C17(t *testing.T) { vfCheck(t, "C17", vfC17Gen, vfC17Run) }
+
+// vfC17RefusedTrainLeavesTemplate: a store with an IVF template is opened, used and closed; Train on the
+// closed handle must be refused and the template object (which the caller still holds and which a
+// later Open with the same configuration would use) must serialise to the same bytes as before.
+func vfC17RefusedTrainLeavesTemplate(i int) *vfViolation {
+	dir, err := os.MkdirTemp(vfEnv("VERIF_SCRATCH"), "c17train-")
+	if err != nil {
+		return vfFail("mkdir: %v", err)
+	}
+	defer os.RemoveAll(dir)
+	conf := vfStoreConf{VecKind: "ivf", Metric: string(Euclidean), Dim: 2, HasText: true, MemLimit: 1000, FlushThr: 1 << 40, CompThr: 4,
+		Train: [][]float32{{0, 0}, {0, 1}, {10, 10}, {10, 11}, {20, 0}, {21, 0}, {-5, 5}, {-5, 6}}}
+	st, err := vfOpenStore(dir, &conf)
+	if err != nil {
+		return vfFail("op %d: Open of a store with an IVF template: %v", i, err)
+	}
+	if _, err := st.Add([]float32{1, 1}, "tok train", nil); err != nil {
+		st.Close()
+		return vfFail("op %d: Add: %v", i, err)
+	}
+	if err := st.Close(); err != nil {
+		return vfFail("op %d: Close: %v", i, err)
+	}
+	tmpl, ok := st.VectorIndex().(io.WriterTo)
+	if !ok {
+		return nil
+	}
+	var before, after bytes.Buffer
+	if _, err := tmpl.WriteTo(&before); err != nil {
+		return vfFail("op %d: serialising the template: %v", i, err)
+	}
+	for rep := 0; rep < 2; rep++ {
+		if err := st.Train([][]float32{{100, 100}, {101, 100}, {-100, 100}, {-100, 101}, {100, -100}, {100, -101}, {-100, -100}, {-101, -100}}); err == nil {
+			return vfFail("op %d: Train on a CLOSED handle (IVF template) returned nil", i)
+		}
+	}
+	if _, err := tmpl.WriteTo(&after); err != nil {
+		return vfFail("op %d: serialising the template: %v", i, err)
+	}
+	if !bytes.Equal(before.Bytes(), after.Bytes()) {
+		return vfFail("op %d: Train on a CLOSED handle was refused with an error but changed the vector index template (its serialised form differs: %d vs %d bytes, first difference at byte %d)", i, before.Len(), after.Len(), vfFirstDiffByte(before.Bytes(), after.Bytes()))
+	}
+	return nil
+}
+
+func vfFirstDiffByte(a, b []byte) int {
+	for j := 0; j < len(a) && j < len(b); j++ {
+		if a[j] != b[j] {
+			return j
+		}
+	}
+	if len(a) < len(b) {
+		return len(a)
+	}
+	return len(b)
+}
